@@ -82,18 +82,22 @@ def choose_cuts(chooser: Chooser, length: int, mode: Any) -> Tuple[int, ...]:
     """Cut offsets (0 < c < length) of a byte string of `length` bytes.
 
     mode: "one" (a single read) | "2way" (choice 0 = unsplit, i = cut at i) | "3way" (every pair
-    of cut points, two nested data choices) | "bytes" (one byte per read) | ("list", [cuts, ...])
+    of cut points, two nested data choices; "3way/p/n" is the p-th of n slices of that set) | "bytes" (one byte per read) | ("list", [cuts, ...])
     (choice among the given cut tuples) | ("every", k) (a read every k bytes)."""
     if mode == "one" or length < 2:
         return ()
     if mode == "2way":
         c = chooser.choose(length, "data")
         return () if c == 0 else (c,)
-    if mode == "3way":
+    if isinstance(mode, str) and mode.startswith("3way"):
+        # "3way" or "3way/<part>/<nparts>": the slice of pairs whose first cut i has i % nparts == part (load balancing)
         if length < 3:
             return ()
-        a = chooser.choose(length - 2, "data")  # first cut 1 .. length-2
-        i = a + 1
+        part, nparts = (int(x) for x in mode.split("/")[1:]) if "/" in mode else (0, 1)
+        firsts = [i for i in range(1, length - 1) if i % nparts == part]  # first cut 1 .. length-2
+        if not firsts:
+            return ()
+        i = firsts[chooser.choose(len(firsts), "data")]
         b = chooser.choose(length - 1 - i, "data")  # second cut i+1 .. length-1
         return (i, i + 1 + b)
     if mode == "bytes":
@@ -114,6 +118,13 @@ def segments(data: bytes, cuts: Any, forced: Any = ()) -> List[bytes]:
         out.append(data[last:p])
         last = p
     return [s for s in out if s]
+
+
+def three_way_modes(length: int, per_item: int = 1500) -> List[str]:
+    """Split the set of all 3-way splits of `length` bytes into slices of roughly `per_item` executions."""
+    total = (length - 1) * (length - 2) // 2
+    n = max(1, min(length - 2, -(-total // per_item)))
+    return ["3way"] if n == 1 else [f"3way/{p}/{n}" for p in range(n)]
 
 
 def lattice(boundaries: List[int], length: int) -> List[Tuple[int, ...]]:
